@@ -614,6 +614,59 @@ pub fn pair_strategy() -> impl Strategy<Value = Pair> {
         .prop_filter_map("out of domain", |(ra, rb, g, m, far)| counted(build_pair(&ra, &rb, g, &m, far)))
 }
 
+/// Pairs of the "operand inside a hole" kind, which `pair_strategy` meets about once in 10^5 cases: the first operand is a
+/// polygon of the many-holes family (several holes, L- / U-shaped ones whose bounding boxes contain other holes), the second a
+/// line string, polygon, triangle or line whose points are centres of cells enclosed by the first (inside one of its holes).
+pub fn holes_pair_strategy() -> impl Strategy<Value = Pair> {
+    (raw_geom(), raw_geom(), 4usize..=max_g().max(4), prop_oneof![Just(3u8), Just(4u8), Just(5u8), Just(8u8), Just(2u8), Just(10u8)], 0u32..4)
+        .prop_filter_map("out of domain", |(mut ra, mut rb, g, kb, density)| {
+            ra.kind = 5;
+            ra.flags = (ra.flags & !(3 << 20) & !(3 << 22)) | (density << 22);
+            rb.kind = kb;
+            rb.flags = (rb.flags & !(7 << 1)) | (4 << 1);
+            counted(build_pair(&ra, &rb, g, &[1, 0, 0, 1], None))
+        })
+}
+
+/// The sharpest form of the above, built from a template on the 6x6 board: a polygon with a large L-shaped hole and a small
+/// hole in the notch of the L (inside the large hole's bounding box, in any of the four mirror images, so that either hole comes
+/// first in the ring order), and a line / line string that lies inside the SMALL hole.
+pub fn nested_holes_pair_strategy() -> impl Strategy<Value = Pair> {
+    (raw_geom(), 0u8..4, 0u8..3, 0u8..4).prop_filter_map("out of domain", |(mut ra, mirror, small, bsel)| {
+        let g = 6usize;
+        let mut cells = vec![false; BOARD * BOARD];
+        for j in 0..g {
+            for i in 0..g {
+                cells[j * BOARD + i] = true;
+            }
+        }
+        let m = |c: (usize, usize)| (if mirror & 1 == 1 { 5 - c.0 } else { c.0 }, if mirror & 2 == 2 { 5 - c.1 } else { c.1 });
+        let big = [(1, 1), (1, 2), (1, 3), (1, 4), (2, 4), (3, 4), (4, 4)];
+        let small_cells: Vec<(usize, usize)> = match small { 0 => vec![(3, 1), (4, 1)], 1 => vec![(3, 1), (3, 2)], _ => vec![(3, 1), (4, 1), (4, 2)] };
+        for c in big.iter().chain(small_cells.iter()) {
+            let (i, j) = m(*c);
+            cells[j * BOARD + i] = false;
+        }
+        ra.kind = 5;
+        ra.cells = cells;
+        // (own mask as it is: not the many-holes punching)
+        ra.flags |= 1 << 20;
+        let a = build_geom(&ra, g, &[], None)?;
+        let centre = |c: (usize, usize)| { let (i, j) = m(c); (2 * i as i64 + 1, 2 * j as i64 + 1) };
+        let path: Vec<C> = small_cells.iter().map(|c| centre(*c)).collect();
+        let b = match bsel {
+            0 => G::Line(path[0], path[1]),
+            1 => G::LineString(path.clone()),
+            2 => G::LineString(path.iter().rev().cloned().collect()),
+            _ => G::MultiLineString(vec![path.clone()]),
+        };
+        if !(in_relate_domain(&a) && in_relate_domain(&b)) {
+            return None;
+        }
+        counted(Some(Pair { a, b }))
+    })
+}
+
 /// A single valid model geometry.
 pub fn geom_strategy() -> impl Strategy<Value = G> {
     (raw_geom(), 1usize..=max_g(), mat_strategy()).prop_filter_map("out of domain", |(r, g, m)| counted((move || {
